@@ -21,20 +21,34 @@ def canon(case):
     return {'api': 'resolve', 'timex': c['timex'], 'ref': case.get('ref')}
 
 
-def selftest(work, events):
-    picks = {}
+def selftest(work, events, bad_ids=()):
+    """corrupt observations that TLC accepts (a change under test may have broken many others: the genuine candidates are
+    judged first and only accepted ones are corrupted)"""
+    cands = {'wd': [], 'du': [], 'ym': [], 'ev': []}
     for e in events:
-        k = e['c']['k']
-        if 'exception' in e['obs'] or 'timeout' in e['obs']:
+        if e['id'] in bad_ids or 'exception' in e['obs'] or 'timeout' in e['obs']:
             continue
-        if k == 'weekday' and 'wd' not in picks:
-            picks['wd'] = e
-        if k == 'duration' and 'du' not in picks:
-            picks['du'] = e
-        if k == 'yearmonth' and 'ym' not in picks:
-            picks['ym'] = e
-        if k == 'eval' and e['obs']['timexes'] and 'ev' not in picks and len(e['c']['cands']) == 1 and e['c']['cands'][0]['k'] == 'wd' and len(e['c']['dr']) == 1 and not e['c']['tr'] and len(e['obs']['timexes']) > 1:
-            picks['ev'] = e
+        k = e['c']['k']
+        if k == 'weekday' and len(cands['wd']) < 12:
+            cands['wd'].append(e)
+        if k == 'duration' and len(cands['du']) < 12:
+            cands['du'].append(e)
+        if k == 'yearmonth' and len(cands['ym']) < 12:
+            cands['ym'].append(e)
+        if k == 'eval' and e['obs']['timexes'] and len(cands['ev']) < 40 and len(e['c']['cands']) == 1 and e['c']['cands'][0]['k'] == 'wd' and len(e['c']['dr']) == 1 and not e['c']['tr'] and len(e['obs']['timexes']) > 1:
+            cands['ev'].append(e)
+    flat = [copy.deepcopy(e) for k in ('wd', 'du', 'ym', 'ev') for e in cands[k]]
+    kinds = [k for k in ('wd', 'du', 'ym', 'ev') for _ in cands[k]]
+    for n, e in enumerate(flat):
+        e['id'] = n
+    if not flat:
+        return False
+    r0 = judge.judge(work, 'Trace_TimexResolve', flat, shards=1)
+    rejected = {b[0] for b in r0['bad']}
+    picks = {}
+    for n, (k, e) in enumerate(zip(kinds, flat)):
+        if n not in rejected and k not in picks:
+            picks[k] = e
     if len(picks) < 4:
         return False
     bad = []
@@ -85,7 +99,7 @@ def run(tier):
         obs = pool.run_cases(cases, init_name='timex', timeout=10.0, batch=200, progress=PROP)
         events = [{'id': i, 'c': c['c'], 'obs': o} for i, (c, o) in enumerate(zip(cases, obs))]
         res = judge.judge(work, 'Trace_TimexResolve', events)
-        if not selftest(work, events):
+        if not selftest(work, events, {b[0] for b in res['bad']}):
             print('MACHINERY: binding self-test failed (corrupted observations were accepted)')
             return 2
         mc, n_collapse, drift = collapse_mech(work, V)
